@@ -69,6 +69,7 @@ ImplStep(st, rm, d, S) ==
     [] S.op = "IndexBatchCrawl" -> IndexBatchCrawlReq(st, rm, d, a.data)
     [] S.op = "CreateWe" -> CreateWebentityReq(st, a.ps)
     [] S.op = "DeleteWe" -> DeleteWebentityReq(st, a.id, a.ps)
+    [] S.op = "DeleteWeNC" -> DeleteWebentityUncheckedReq(st, a.ps)
     [] S.op = "AddPrefix" -> AddPrefixReq(st, a.p, a.id)
     [] S.op = "RemovePrefix" -> RemovePrefixReq(st, a.p, a.id)
     [] S.op = "MovePrefix" -> MovePrefixReq(st, a.p, a.to, a.frm)
@@ -89,6 +90,7 @@ AbsStep(A, st, rm, d, S) ==
     [] S.op = "IndexBatchCrawl" -> AbsIndexBatchCrawl(A, rm, d, a.data)
     [] S.op = "CreateWe" -> AbsCreateWe(A, a.ps)
     [] S.op = "DeleteWe" -> AbsDeleteWe(A, a.id, a.ps)
+    [] S.op = "DeleteWeNC" -> AbsDeleteWeUnchecked(A, a.ps)
     [] S.op = "AddPrefix" -> AbsAddPrefix(A, a.p, a.id)
     [] S.op = "RemovePrefix" -> AbsRemovePrefix(A, a.p, a.id)
     [] S.op = "MovePrefix" -> AbsMovePrefix(A, a.p, a.to, a.frm)
